@@ -276,6 +276,8 @@ impl SparseVector {
         // Invariant: `self.rank_zero(high) > rank`.
         while high - low > Self::BINARY_SEARCH_THRESHOLD {
             let mid = low + (high - low) / 2;
+            #[cfg(feature = "verif-probes")]
+            crate::verif::hit(crate::verif::probe::SPARSE_FZR_BINARY);
             let mut iter = self.select_iter(mid);
             let (_, mid_pos) = iter.next().unwrap();
             if mid_pos - mid <= rank {
@@ -290,6 +292,8 @@ impl SparseVector {
         // `high.select()`.
         let mut iter = result.1.clone();
         while let Some((mid, mid_pos)) = iter.next() {
+            #[cfg(feature = "verif-probes")]
+            crate::verif::hit(crate::verif::probe::SPARSE_FZR_LINEAR);
             if mid_pos - mid <= rank {
                 result = (mid + 1, iter.clone());
             } else {
@@ -451,6 +455,8 @@ impl SparseBuilder {
             let ideal_width = ((universe as f64 * 2.0_f64.ln()) / (ones as f64)).log2();
             low_width = ideal_width.max(1.0).round() as usize;
         }
+        #[cfg(feature = "verif-probes")]
+        crate::verif::note(crate::verif::set::SPARSE_LOW_WIDTH, low_width);
         let buckets = Self::get_buckets(universe, low_width);
         (low_width, ones + buckets)
     }
